@@ -117,11 +117,29 @@ def catalogue(T):
     lin = lambda a, b, n: np.linspace(a, b, n)
     geo = lambda a, b, n: np.geomspace(a, b, n)
 
+    # One instance per (class, constructor options) is REUSED across the parameter settings of the catalogue and
+    # re-parameterised the way users do it (by attribute, by item, or through params.values), after having been
+    # evaluated with the previous setting: state carried between calls (caches, delegate objects) is exercised.
+    instances = {}
+    counter = [0]
+
     def mk(cls, params=None, consts=None, **ctor):
         def f():
-            t = getattr(T, cls)(**ctor)
-            for k, v in (params or {}).items():
-                t.params[k] = v
+            key = (cls, tuple(sorted(ctor.items())))
+            counter[0] += 1
+            style = counter[0] % 4
+            t = instances.get(key)
+            if t is None or style == 3:
+                t = getattr(T, cls)(**ctor)
+                instances[key] = t
+            if style == 2 and params and len(params) == t.params.nval:
+                t.params.values = [params[str(nm)] for nm in t.params.names]
+            else:
+                for k, v in (params or {}).items():
+                    if style == 0:
+                        setattr(t, k, v)
+                    else:
+                        t[k] = v
             for k, v in (consts or {}).items():
                 t.constants[k] = v
             return t
